@@ -10,7 +10,7 @@ CLAIMED = {
  "C03": dict(
    technique="deterministic simulation: seeded scheduler over concurrent requests + solo-twin differential oracle + race detector made schedule-deterministic (baton through raw pipe syscalls)",
    text="Seeded exploration of interleavings of 2-6 in-flight requests on seeded router shapes; every request must equal the same request served alone on a fresh identical router, and the same runs are repeated in a -race build where hand-offs between simulated requests are invisible to the detector, so only rux's own synchronisation orders them. Sampling, not enumeration.",
-   note="Interleavings at yield sites only (harness handler boundaries, writer calls, verif-tagged sites in rux). Race detector blind spots (library-internal pools adding edges, bounded TSan history) can hide a race, never invent one. Trusted: the harness, Go's race detector.",
+   note="Interleavings at yield sites only (harness handler boundaries, writer calls, verif-tagged sites in rux). Race detector blind spots (library-internal pools adding edges, bounded TSan history) can hide a race, never invent one. Trusted: the harness, Go's race detector. A further profile per property (*-pre) repeats the concurrent worlds in a binary built against a scratch copy of the working tree in which instr/ has woven a scheduler yield before every statement of package rux, under a seeded random-walk scheduler: tasks are preempted between any two statements of rux, not only at hooks (DESIGN.md 3.7a).",
    ref="DESIGN.md §4.1"),
  "C08": dict(
    technique="deterministic simulation with writer fault injection: seeded handler operation programs against a fault-injecting simulated ResponseWriter; trace-driven state-machine model of the lazy header commit",
@@ -25,17 +25,17 @@ CLAIMED = {
  "C07": dict(
    technique="deterministic simulation with cache-loss fault injection: seeded request histories on a tiny-capacity caching router vs a non-caching twin, sequentially and under the seeded scheduler",
    text="Seeded histories (5-60 steps over a pool of 3-8 requests, so hits, misses and evictions occur; HEAD fallbacks, 405 probes, Router.Match steps) on caching routers with capacity 0-4 or 1000, compared step by step with a twin built from the same program without caching; concurrent profiles compare each request with the non-caching twin's answer for that request alone; fault profiles delete entries or flush the cache between any two scheduler steps (also between a lookup and the store that follows). Sampling, not enumeration.",
-   note="Route pointer identity is deliberately not compared (a hit returns a copy). Handlers treat Params as read-only, as the statement assumes. The twin shares all of rux except the cache, so a routing defect common to both (C01) cannot raise an alarm here.",
+   note="Route pointer identity is deliberately not compared (a hit returns a copy). Handlers treat Params as read-only, as the statement assumes. The twin shares all of rux except the cache, so a routing defect common to both (C01) cannot raise an alarm here. A further profile per property (*-pre) repeats the concurrent worlds in a binary built against a scratch copy of the working tree in which instr/ has woven a scheduler yield before every statement of package rux, under a seeded random-walk scheduler: tasks are preempted between any two statements of rux, not only at hooks (DESIGN.md 3.7a).",
    ref="DESIGN.md §4.4"),
  "C10": dict(
    technique="deterministic simulation: seeded request histories with context-dirtying handler scripts, simulated pool with adversarial reuse policy (dirtiest-first / LIFO / FIFO / random), fresh-router twin per request",
    text="Seeded histories of 4-30 requests (static, dynamic, 404, 405, aborted, erroring, panicking, writer/request-swapping, re-dispatching through HandleContext) where the simulated pool hands the dirtiest free context to the next request; every handler's observation of the context and the whole outcome must equal those of the same request as first request on a fresh identical router; the pool checks that no context is released twice. Sampling, not enumeration.",
-   note="Reuse is real and measured by object identity. Observations use the public Context API only (Params, Data(), Errors, IsAborted, StatusCode, Length, Req, RawWriter, Resp type).",
+   note="Reuse is real and measured by object identity. Observations use the public Context API only (Params, Data(), Errors, IsAborted, StatusCode, Length, Req, RawWriter, Resp type). A further profile per property (*-pre) repeats the concurrent worlds in a binary built against a scratch copy of the working tree in which instr/ has woven a scheduler yield before every statement of package rux, under a seeded random-walk scheduler: tasks are preempted between any two statements of rux, not only at hooks (DESIGN.md 3.7a).",
    ref="DESIGN.md §4.7"),
  "C14": dict(
    technique="deterministic simulation: seeded cache-operation histories vs a sequential LRU model (operation by operation incl. recency order through a verif accessor); concurrent histories under the seeded scheduler checked for linearizability with porcupine and under the race detector; router-level request histories",
    text="Component level: seeded Set/Get/Has/Delete/Len histories (10-80 operations, capacity 0-4 or 1000, six keys, unique values) compared after every operation - return value and recency order - with a list model; 2-4 concurrent clients with yields before every lock acquisition, invocation/return stamped with the simulator's event sequence number, checked with porcupine against the same model plus a final recency snapshot, and executed in the -race build. Router level: after a request resolved to a dynamic route the most recent cache key must be exactly method+path, and an immediate repeat must be a cache hit with no store. Sampling, not enumeration.",
-   note="Whether Has counts as a read is not stated: both readings are accepted, but one of them must explain the whole history. HEAD requests may be cached under their GET fallback. Router-level paths are generated already normalised (normalisation is C11). Porcupine timeouts are counted as inconclusive in the evidence, never reported.",
+   note="Whether Has counts as a read is not stated: both readings are accepted, but one of them must explain the whole history. HEAD requests may be cached under their GET fallback. Router-level paths are generated already normalised (normalisation is C11). Porcupine timeouts are counted as inconclusive in the evidence, never reported. A further profile per property (*-pre) repeats the concurrent worlds in a binary built against a scratch copy of the working tree in which instr/ has woven a scheduler yield before every statement of package rux, under a seeded random-walk scheduler: tasks are preempted between any two statements of rux, not only at hooks (DESIGN.md 3.7a).",
    ref="DESIGN.md §4.8"),
  "C04": dict(
    technique="deterministic simulation (thin claim): seeded registration programs and handler behaviours run under the seeded scheduler, pool and cache seams; absolute oracle = registration model + one-cursor interpreter of the handler scripts",
